@@ -159,6 +159,9 @@ where
             self.roadmap.len()
         );
 
+        // Hand the generator back so that later calls continue the same (seeded) stream.
+        self.rng = Some(rng);
+
         Ok(())
     }
 
